@@ -1008,4 +1008,228 @@ theorem decRunA_sim (p : Params) (pol : Policy) (tun : Tuning) (calls : List ACa
 theorem decRunA_call (p : Params) (pol : Policy) (tun : Tuning) (calls : List Call) :
     decRunA p pol tun (calls.map .call) = decRun p pol tun calls := decCallsA_call p 0 calls _ _ _
 
+/-! ### The run as a list of operations (all input methods) -/
+
+/-- What the codec, its caller and its consumer do to the world, all input methods: the operations of
+`XOp` — where `pushAt` now also names sub-slices of arena memory the caller holds —, `read_n` on the
+iovec's own arena (not an iovec call: it moves the arena's bump pointer and writes fresh memory), and
+`push_anchor`. -/
+inductive AXOp where
+  | x (o : XOp)
+  | readN (count attempts : Nat) (src : List UInt8) (script : List ReadN.Ev)
+  | pushAnchor (a : Anchor)
+  deriving Repr, DecidableEq
+
+def axstep (i : Nat) (s : State) : AXOp → Option (State × Ret)
+  | .x o => xstep i s o
+  | .readN count attempts src script =>
+    (readOwn s.w i ⟨src, script⟩ count attempts).map fun y => ({ s with w := y.1 }, .unit)
+  | .pushAnchor a => (s.w.pushAnchor i a).map fun w' => ({ s with w := w' }, .unit)
+
+def axrun (i : Nat) : State → List AXOp → Option (State × List Ret)
+  | s, [] => some (s, [])
+  | s, o :: ops =>
+    match axstep i s o with
+    | none => none
+    | some (s', r) =>
+      match axrun i s' ops with
+      | none => none
+      | some (s'', rs) => some (s'', r :: rs)
+
+/-- `ops` runs from `s` to `s'` without panicking. -/
+def AXR (i : Nat) (s : State) (ops : List AXOp) (s' : State) : Prop := ∃ rs, axrun i s ops = some (s', rs)
+
+theorem AXR.nil (i : Nat) (s : State) : AXR i s [] s := ⟨[], rfl⟩
+
+theorem AXR.cons {i : Nat} {s s1 s2 : State} {o : AXOp} {ops : List AXOp} {r : Ret}
+    (h1 : axstep i s o = some (s1, r)) (h2 : AXR i s1 ops s2) : AXR i s (o :: ops) s2 := by
+  obtain ⟨rs, h2⟩ := h2
+  exact ⟨r :: rs, by simp [axrun, h1, h2]⟩
+
+theorem AXR.append {i : Nat} {s s1 s2 : State} {a b : List AXOp} (h1 : AXR i s a s1) (h2 : AXR i s1 b s2) :
+    AXR i s (a ++ b) s2 := by
+  induction a generalizing s with
+  | nil =>
+    obtain ⟨rs, h1⟩ := h1
+    simp only [axrun, Option.some.injEq, Prod.mk.injEq] at h1
+    obtain ⟨rfl, _⟩ := h1
+    exact h2
+  | cons o t ih =>
+    obtain ⟨rs, h1⟩ := h1
+    simp only [axrun] at h1
+    cases hs : axstep i s o with
+    | none => rw [hs] at h1; cases h1
+    | some sr =>
+      obtain ⟨s', r⟩ := sr
+      rw [hs] at h1
+      simp only at h1
+      cases hr : axrun i s' t with
+      | none => rw [hr] at h1; cases h1
+      | some srs =>
+        obtain ⟨s'', rs'⟩ := srs
+        rw [hr] at h1
+        simp only [Option.some.injEq, Prod.mk.injEq] at h1
+        obtain ⟨rfl, _⟩ := h1
+        exact AXR.cons hs (ih ⟨rs', hr⟩)
+
+/-- A run of the old vocabulary is a run of the new one. -/
+theorem AXR.of_xr {i : Nat} {s s' : State} {ops : List XOp} (h : XR i s ops s') : AXR i s (ops.map .x) s' := by
+  induction ops generalizing s with
+  | nil =>
+    obtain ⟨rs, h⟩ := h
+    simp only [xrun, Option.some.injEq, Prod.mk.injEq] at h
+    obtain ⟨rfl, _⟩ := h
+    exact AXR.nil _ _
+  | cons o t ih =>
+    obtain ⟨rs, h⟩ := h
+    simp only [xrun] at h
+    cases hs : xstep i s o with
+    | none => rw [hs] at h; cases h
+    | some sr =>
+      obtain ⟨s1, r⟩ := sr
+      rw [hs] at h
+      simp only at h
+      cases hr : xrun i s1 t with
+      | none => rw [hr] at h; cases h
+      | some srs =>
+        obtain ⟨s2, rs'⟩ := srs
+        rw [hr] at h
+        simp only [Option.some.injEq, Prod.mk.injEq] at h
+        obtain ⟨rfl, _⟩ := h
+        exact AXR.cons (o := .x o) (r := r) hs (ih ⟨rs', hr⟩)
+
+/-- The operations of one `encode_read` call: the read; then, when it succeeded, the operations of
+`encode` of the returned slice (`feedOps`: its borrowed appends are `pushAt` of sub-slices of that
+slice), and the anchor (unless the slice is empty). -/
+def readOps (p : Params) (i : Nat) (r : Run) (count attempts : Nat) (src : List UInt8) (script : List ReadN.Ev) :
+    List AXOp :=
+  .readN count attempts src script ::
+    match readOwn r.w i ⟨src, script⟩ count attempts with
+    | some (w1, .ok a, _) =>
+      (feedOps p (2 * (w1.sliceBytes a.slice).length + 2) w1 i r.e .borrow a.slice (w1.sliceBytes a.slice) 0).map .x ++
+        (if a.slice.len = 0 then [] else [.pushAnchor a.anchor])
+    | _ => []
+
+def acallOps (p : Params) (i : Nat) (r : Run) : ACall → List AXOp
+  | .call c => (callOps p i r c).map .x
+  | .read count attempts src script => readOps p i r count attempts src script
+
+def acallsOps (p : Params) (i : Nat) : Run → List ACall → List AXOp
+  | _, [] => []
+  | r, c :: t =>
+    acallOps p i r c ++
+      match encCallA p i r c with
+      | some r' => acallsOps p i r' t
+      | none => []
+
+theorem encCallA_axrun (p : Params) (i : Nat) (r r' : Run) (c : ACall) (n : Nat) (h : encCallA p i r c = some r') :
+    ∃ n', AXR i ⟨r.w, r.drained, n⟩ (acallOps p i r c) ⟨r'.w, r'.drained, n'⟩ := by
+  cases c with
+  | call c =>
+    obtain ⟨n', hx⟩ := encCall_xrun p i r r' c n h
+    exact ⟨n', AXR.of_xr hx⟩
+  | read count attempts src script =>
+    simp only [encCallA, Option.map_eq_some_iff] at h
+    obtain ⟨x, hx, rfl⟩ := h
+    simp only [encodeRead] at hx
+    cases hro : readOwn r.w i ⟨src, script⟩ count attempts with
+    | none => rw [hro] at hx; cases hx
+    | some y =>
+      obtain ⟨w1, res, o⟩ := y
+      rw [hro] at hx
+      have hstep : axstep i ⟨r.w, r.drained, n⟩ (.readN count attempts src script) = some (⟨w1, r.drained, n⟩, .unit) := by
+        simp [axstep, hro]
+      cases res with
+      | error k =>
+        simp only [Option.some.injEq] at hx
+        subst hx
+        refine ⟨n, ?_⟩
+        simp only [acallOps, readOps, hro]
+        exact AXR.cons hstep (AXR.nil _ _)
+      | ok a =>
+        simp only [encodeAnchored] at hx
+        cases hf : encFeed p (2 * (w1.sliceBytes a.slice).length + 2) w1 i r.e .borrow a.slice (w1.sliceBytes a.slice) 0 with
+        | none => rw [hf] at hx; cases hx
+        | some z =>
+          obtain ⟨w2, e2⟩ := z
+          rw [hf] at hx
+          obtain ⟨n2, hfx⟩ := encFeed_xrun p i .borrow a.slice r.drained _ w1 w2 r.e e2 _ 0 n hf
+          simp only [acallOps, readOps, hro]
+          by_cases hl0 : a.slice.len = 0
+          · simp only [pushAnchorOf, hl0, if_true, Option.some.injEq] at hx
+            subst hx
+            refine ⟨n2, AXR.cons hstep ?_⟩
+            simp only [hl0, if_true, List.append_nil]
+            exact AXR.of_xr hfx
+          · simp only [pushAnchorOf, hl0, if_false] at hx
+            cases hpa : w2.pushAnchor i a.anchor with
+            | none => rw [hpa] at hx; cases hx
+            | some w3 =>
+              rw [hpa] at hx
+              simp only [Option.some.injEq] at hx
+              subst hx
+              refine ⟨n2, AXR.cons hstep (AXR.append (AXR.of_xr hfx) ?_)⟩
+              simp only [hl0, if_false]
+              have hs : axstep i ⟨w2, r.drained, n2⟩ (.pushAnchor a.anchor) = some (⟨w3, r.drained, n2⟩, .unit) := by
+                simp [axstep, hpa]
+              exact AXR.cons hs (AXR.nil _ _)
+
+theorem encCallsA_axrun (p : Params) (i : Nat) (calls : List ACall) :
+    ∀ (r r' : Run) (n : Nat), encCallsA p i r calls = some r' →
+      ∃ n', AXR i ⟨r.w, r.drained, n⟩ (acallsOps p i r calls) ⟨r'.w, r'.drained, n'⟩ := by
+  induction calls with
+  | nil =>
+    intro r r' n h
+    simp only [encCallsA, Option.some.injEq] at h
+    subst h
+    exact ⟨n, AXR.nil _ _⟩
+  | cons c t ih =>
+    intro r r' n h
+    simp only [encCallsA] at h
+    cases h1 : encCallA p i r c with
+    | none => rw [h1] at h; cases h
+    | some r1 =>
+      rw [h1] at h
+      obtain ⟨n1, hx⟩ := encCallA_axrun p i r r1 c n h1
+      obtain ⟨n2, h2⟩ := ih r1 r' n1 h
+      exact ⟨n2, by simp only [acallsOps, h1]; exact AXR.append hx h2⟩
+
+/-- The operation list of a whole run: `Encoder::new`'s, each call's, `finish`'s. -/
+def encRunOpsA (p : Params) (pol : Policy) (tun : Tuning) (calls : List ACall) : List AXOp :=
+  (stepOps (World.fresh pol tun) 0 [] (Enc.init p 0).2 ⟨.ext 0, 0, 0⟩).map .x ++
+    match encInit p (World.fresh pol tun) 0 with
+    | none => []
+    | some (w1, e1) =>
+      acallsOps p 0 ⟨w1, e1, []⟩ calls ++
+        match encCallsA p 0 ⟨w1, e1, []⟩ calls with
+        | none => []
+        | some r => (stepOps r.w 0 r.e.toks (Enc.finish p r.e.st) ⟨.ext 0, 0, 0⟩).map .x
+
+theorem encRunA_axrun (p : Params) (pol : Policy) (tun : Tuning) (calls : List ACall) (w' : World) (dr : List UInt8)
+    (h : encRunA p pol tun calls = some (w', dr)) :
+    ∃ n, AXR 0 (State.init pol tun) (encRunOpsA p pol tun calls) ⟨w', dr, n⟩ := by
+  unfold encRunA encPrefixA at h
+  cases h0 : applyStep (World.fresh pol tun) 0 [] (Enc.init p 0).2 ⟨.ext 0, 0, 0⟩ with
+  | none => simp [encInit, h0] at h
+  | some x =>
+    obtain ⟨w1, toks1⟩ := x
+    have hi : encInit p (World.fresh pol tun) 0 = some (w1, ⟨(Enc.init p 0).1, 1, toks1⟩) := by
+      simp only [encInit, h0]
+    rw [hi] at h
+    simp only at h
+    obtain ⟨n1, hx1⟩ := applyStep_xrun (i := 0) [] _ 0 h0
+    cases h1 : encCallsA p 0 ⟨w1, ⟨(Enc.init p 0).1, 1, toks1⟩, []⟩ calls with
+    | none => rw [h1] at h; cases h
+    | some r =>
+      rw [h1] at h
+      simp only [encFinish, Option.map_eq_some_iff, Prod.mk.injEq] at h
+      obtain ⟨wf, ⟨x, h2, rfl⟩, rfl, rfl⟩ := h
+      obtain ⟨n2, hx2⟩ := encCallsA_axrun p 0 calls _ r n1 h1
+      obtain ⟨n3, hx3⟩ := applyStep_xrun (i := 0) r.drained _ n2 (toks' := x.2) (w' := x.1) h2
+      refine ⟨n3, ?_⟩
+      unfold encRunOpsA
+      rw [hi]
+      simp only [h1]
+      exact AXR.append (AXR.of_xr hx1) (AXR.append hx2 (AXR.of_xr hx3))
+
 end Woodpile.EncWorld
